@@ -148,9 +148,18 @@ def check_property_file(pid, thorough=False):
     if not os.path.exists(os.path.join(COQ, rel)):
         res["log"] = "no property file"
         return res
+    deps = coq_deps(rel)
+    res["deps"] = deps
+    res["obligations"], res["obligation_names"] = count_obligations(deps)
+    res["discharged"] = 0
     with Lock():
         rc, out = sh(f"timeout 900 coqc -Q . LNN {rel} 2>&1", cwd=COQ, timeout=1000)
     res["log"] = out[-3000:]
+    # obligations whose file compiled against the current sources
+    for d in deps:
+        vo = os.path.join(COQ, d[:-2] + ".vo")
+        if d != rel and os.path.exists(vo) and os.path.getmtime(vo) >= os.path.getmtime(os.path.join(COQ, d)):
+            res["discharged"] += count_obligations([d])[0]
     if rc != 0:
         return res
     # Print Assumptions output: either "Closed under the global context" or "Axioms:\n name : type"
@@ -165,9 +174,8 @@ def check_property_file(pid, thorough=False):
     res["n_print"] = n_print
     res["closed"] = closed
     res["ok"] = (not res["axioms"]) and closed == n_print and n_print > 0
-    deps = coq_deps(rel)
-    res["deps"] = deps
-    res["obligations"], res["obligation_names"] = count_obligations(deps)
+    if res["ok"]:
+        res["discharged"] += count_obligations([rel])[0]
     if thorough and res["ok"]:
         t = time.time()
         with Lock():
@@ -252,7 +260,7 @@ class Ctx:
         cov["rule"] = rule
         if prop_res is not None:
             cov["obligations"] = prop_res.get("obligations", 0)
-            cov["discharged"] = prop_res.get("obligations", 0) if prop_res.get("ok") else 0
+            cov["discharged"] = prop_res.get("discharged", 0)
             cov["checker_cmd"] = f"cd /verif/coq && make -k -j16 && coqc -Q . LNN Properties/{self.pid}.v" + \
                 (f" && coqchk -silent -o -Q . LNN LNN.Properties.{self.pid}" if self.tier == "thorough" else "")
             cov["trusted_base"] = TRUSTED_BASE
